@@ -1080,6 +1080,7 @@ func R16(p *core.Prog) *core.Result {
 
 	// (e) UNSAFEPTR
 	unsafePtrRule(p, r)
+	reflPtrIndirect(p, r)
 	return r
 }
 
